@@ -108,3 +108,4 @@ pub fn name_simple(g: &Grammar, t: &Tree) -> Vec<Tok> {
     go(g, t, false, &mut n, &mut out);
     out
 }
+pub mod terms;
